@@ -4,6 +4,7 @@ demonstration in a scratch worktree (suite passes with the patch, demo fails wit
 then run the property's check against it in /repo and record the outcome in seeded/results.json."""
 import json, os, re, shutil, subprocess, sys, time
 V = "/verif"
+os.environ["VERIF_EVIDENCE_DIR"] = "/tmp/verif_seed_evidence"
 WT = "/tmp/wtconfirm"
 ENV = dict(os.environ, GOFLAGS="-mod=mod", GOPROXY="off", GOSUMDB="off", GOTOOLCHAIN="local")
 def sh(cmd, cwd=None, timeout=1800):
